@@ -386,6 +386,11 @@ class Translator:
         if type(n.op) not in ops:
             fail(n, "binary operator")
         o = ops[type(n.op)]
+        if lt == AGG and rt == AGG and o == "+":
+            f = self.lookup_func("Aggregates.__add__")
+            if f is None:
+                fail(n, "Aggregates.__add__ not translated")
+            return f"({f.coq} {l} {r})", AGG
         if lt == NUM and rt == NUM:
             return f"({l} {o} {r})%num", NUM
         if lt == EXT and rt == NUM and o in "+-":
@@ -852,21 +857,40 @@ class Translator:
                         f"Definition {f.coq} {' '.join(binders)} : {coq_ty(f.ret)} :=\n  {body}.\n")
 
 
-def translate(src_path, spec, instance):
+REGISTRY = {}  # spec name -> Translator (for `uses`)
+
+
+def translate(src_path, spec, instance, name=None):
     src = open(src_path).read()
     tree = ast.parse(src)
     tr = Translator(tree, spec)
+    for u in spec.get("uses", ()):
+        prev = REGISTRY[(u, instance)]
+        tr.ext_funcs.update(prev.funcs)
+        tr.ext_funcs.update(prev.ext_funcs)
+        for t, m in prev.methods_of.items():
+            tr.methods_of.setdefault(t, {}).update(m)
+        for k, r in prev.records.items():
+            tr.records.setdefault(k, r)
+    REGISTRY[(name, instance)] = tr
     pre = spec.get("preamble", lambda tr: "")(tr)
     for tgt in spec["targets"]:
         if "raw" in tgt:
             tr.out.append(tgt["raw"](tr))
+            if "func" in tgt:
+                qual, f = tgt["func"]
+                tr.find_def(qual)  # the python definition must still exist
+                tr.funcs[qual] = f
+                if "." in qual:
+                    cls, m = qual.split(".")
+                    tr.methods_of.setdefault(tr.self_types[cls], {})[m] = qual
         else:
             tr.emit_func(tgt)
     sha = hashlib.sha256(src.encode()).hexdigest()[:16]
     head = (f"(* GENERATED by tools/py2coq.py from {os.path.relpath(src_path, '/repo')} - do not edit.\n"
             f"   instance: {instance} *)\n"
             f"From TT Require Import lib.Prelude{instance}.\n")
-    for imp in spec.get("imports", ()):
+    for imp in spec.get("uses", ()):
         head += f"From TT Require Import gen{instance}.{imp}.\n"
     head += "Local Open Scope num_scope.\nLocal Open Scope bool_scope.\n\n"
     if spec.get("section"):
@@ -894,11 +918,11 @@ def main(argv):
     only = set(argv[1:])
     changed = []
     for name, spec in specs.SPECS.items():
-        if only and name not in only:
+        if only and name not in only and not any(name in specs.SPECS[o].get("uses", ()) for o in only if o in specs.SPECS):
             continue
         src = os.path.join(repo, "src", "tea_tasting", spec["source"])
         for inst in ("R", "Q"):
-            text, sha = translate(src, spec, inst)
+            text, sha = translate(src, spec, inst, name)
             p = os.path.join(coqdir, f"gen{inst}", f"{name}.v")
             if write_if_changed(p, text):
                 changed.append(p)
